@@ -12,6 +12,7 @@ from fractions import Fraction as F
 
 import numpy as np
 import astropy.units as u
+from astropy.time import Time
 
 from pbmc import bind_repo, report, factory, history
 from pbmc.exact import time_days as T, hz, ULP_T, unit_scale
@@ -62,6 +63,8 @@ def gen_cases(tier, seed):
     for N in ((8192, 100003) if tier == "quick" else (8192, 30011, 100003)):
         for dt in b["dtypes"]:
             yield {"kind": "long", "N": N, "dtype": dt}
+    for rate in ("100 MHz", "400 MHz", "800 MHz", "1 GHz", "3 kHz", "48 kHz", "2.5 MHz"):
+        yield {"kind": "dense_quantity", "rate": rate}
 
 
 def shift_shapes(ss):
@@ -226,8 +229,59 @@ def long_case(case, res):
     return res
 
 
+def dense_quantity_case(case, res):
+    """EVERY multiple of a round time step as a Quantity shift at a round sample rate: the number of zero-filled samples (and
+    the crop) is the ceiling of the EXACT product of the two doubles; only when that product is a rounding error ABOVE a whole
+    sample may the library take either side."""
+    rate = u.Quantity(case["rate"])
+    srx = hz(rate)
+    N = 700
+    rng = np.random.default_rng(5)
+    x = rng.uniform(1, 2, N)
+    z = pb.Signal(x, sample_rate=rate, start_time=Time("2021-01-01T00:00:00", precision=9))
+    step_unit = {"100 MHz": (1, u.ns), "400 MHz": (2.5, u.ns), "800 MHz": (1.25, u.ns), "1 GHz": (1, u.ns), "3 kHz": (1 / 3, u.ms),
+                 "48 kHz": (125 / 6, u.us), "2.5 MHz": (0.4, u.us)}[case["rate"]]
+    for k in range(1, 641):
+        for sign in (1, -1):
+            q = (sign * k * step_unit[0]) * step_unit[1]
+            s0 = F(float(q.value)) * unit_scale(step_unit[1], u.s) * srx                   # exact shift in samples
+            m = round(s0)
+            near = abs(s0 - m) < F(1, 10 ** 9)
+            if near and abs(s0) > abs(m):
+                res.skipped["Quantity shift a rounding error ABOVE a whole sample (edge open)"] += 1
+                continue
+            want = abs(m) if near else math.ceil(abs(s0))
+            res.transitions += 2
+            res.traces += 1
+            res.state(("dense", case["rate"], k, sign))
+            sub = {"rate": case["rate"], "shift": str(q), "exact_samples": float(s0)}
+            try:
+                o = np.asarray(pb.time_shift(z, q).data)
+                oc = pb.time_shift(z, q, crop=True)
+            except Exception as e:
+                res.violation("time_shift|dense Quantity|raised", f"{type(e).__name__}: {e} [{sub}]", case, sub)
+                continue
+            zeros = o[:want] if sign > 0 else o[N - want:]
+            nxt = o[want] if (sign > 0 and want < N) else (o[N - want - 1] if want < N else 1.0)
+            if want <= N and (np.any(zeros != 0) or (near and nxt == 0)):
+                nz = int(np.sum(o == 0))
+                res.violation("time_shift|dense Quantity|zero-fill count", f"shift {q} at {case['rate']} (exactly {float(s0)!r} samples): "
+                              f"{nz} samples are zero, expected {min(want, N)}", case, sub)
+                continue
+            if len(oc) != max(0, N - want):
+                res.violation("time_shift|dense Quantity|crop length", f"shift {q} at {case['rate']}: crop=True kept {len(oc)} samples, "
+                              f"expected {max(0, N - want)}", case, sub)
+                continue
+            if near:
+                res.hits["whole-sample Quantity shift with the count fixed by exact arithmetic"] += 1
+    res.sample({"dense_quantity": case["rate"]}, 1)
+    return res
+
+
 def check_case(case):
     res = report.Result()
+    if case.get("kind") == "dense_quantity":
+        return dense_quantity_case(case, res)
     if case.get("kind") == "long":
         return long_case(case, res)
     N, ss = case["N"], tuple(case["ss"])
@@ -290,15 +344,19 @@ def check_case(case):
                     ok = True
                     exact_conv = (rate_hz == 8.0 and unit is u.s)
                     for idx in (np.ndindex(*ss) if ss else [()]):
-                        e = F(float(qb[idx])) * sc * F(rate_hz)
+                        e0 = F(float(qb[idx])) * sc * F(rate_hz)          # exact product of the doubles actually passed
+                        e = e0
                         # snap conversion round-off (1e-16 relative) of quarter-sample requests back to the intended value
                         if abs(e * 4 - round(e * 4)) < F(1, 10 ** 10):
                             e = F(round(e * 4), 4)
-                        if e != 0 and e.denominator == 1 and not exact_conv:
-                            ok = False      # whole-sample request through an inexact float conversion: ceil() may take either side
+                        if e != 0 and e.denominator == 1 and not exact_conv and abs(e0) > abs(e):
+                            # the exact shift is a hair ABOVE a whole sample: the library's rounded product may land on the whole
+                            # number or above it, so ceil() may take either side.  (A hair BELOW, or exactly on it: rounding to
+                            # nearest cannot carry the product past the whole number, so the count is fixed and checked.)
+                            ok = False
                         sv[idx] = e
                     if not ok:
-                        res.skipped["Quantity shift equal to a whole sample only up to conversion rounding (edge open)"] += 1
+                        res.skipped["Quantity shift a rounding error ABOVE a whole sample (edge open)"] += 1
                         continue
                     res.state((N, str(dtype), ss, shp, name, "quantity", str(unit), rate_hz))
                     _generic_call(res, case, zq, Xq, q, sv, ss, sub)
@@ -497,7 +555,7 @@ def main(argv=None):
         PID, gen_cases=gen_cases, check_case=check_case, describe=describe,
         required_hits=["buffer overwritten between calls", "zero-fill rows checked", "length-1 shift axis broadcast over a longer sample axis",
                        "shift array with fewer axes than the sample shape", "|s| >= N (all zero)", "crop to empty",
-                       "mixed-sign crop", "time Quantity shift", "Quantity unit not reciprocal to the rate unit", "negative zero in a shift array", "argument forms", "long signal, large shift", "long signal, Quantity shift slightly off a whole sample", "long signal, float32 shift", "too many dims rejected",
+                       "mixed-sign crop", "time Quantity shift", "Quantity unit not reciprocal to the rate unit", "negative zero in a shift array", "argument forms", "long signal, large shift", "long signal, Quantity shift slightly off a whole sample", "long signal, float32 shift", "whole-sample Quantity shift with the count fixed by exact arithmetic", "too many dims rejected",
                        "complex even-N fractional (two Nyquist conventions accepted)",
                        "all-zero shift (identity fast path)"],
         assumptions=["phase ramp is single precision by design: value budget 16*eps32*max|x| (a more accurate implementation passes)",
